@@ -19,11 +19,13 @@ NOT_COVERED = [
     'in-place operation is proved for opus_packet_unpad / opus_multistream_packet_unpad on valid packets (single-array model with the '
     'header-then-memmove order, tied byte for byte including the stale bytes after ret); the header bytes of that model are taken from the '
     'pure emit (they depend on TOC and frame lengths only); pad / multistream pad copy the packet first, so no overlap exists there',
-    'pad_same_decode: only the packet-derived inputs of the decoder skeleton are proved equal (pad_same_decode_partial); equality of '
-    'decoded audio and final range is checked on the implementation by S4 on a quarter of the pad cases',
+    'pad_same_decode is proved on C01\'s decoder skeleton, where the SILK/CELT/range-decoder DSP is an oracle: the theorem assumes the DSP '
+    'answers the same when it is handed the same frame bytes at a shifted address (OracleShift); the frame bytes are proved identical. '
+    'The DSP itself is not modelled: S4 decodes x and pad x with the real decoder on a quarter of the pad cases and compares PCM and final range',
     'opus_int32 overflow with extension payloads of about 2 GB and maxlen near INT_MAX (see UNPROVED int_ranges with extensions)',
 ]
-ASSUMPTIONS = ['len / maxlen arguments equal the sizes of the supplied buffers (exact-size heap blocks and guard bytes under ASan)',
+ASSUMPTIONS = ['pad_same_decode: the DSP oracles depend on the packet only through the frame bytes they are pointed at (OracleShift o1 o2 d)',
+               'len / maxlen arguments equal the sizes of the supplied buffers (exact-size heap blocks and guard bytes under ASan)',
                'packets given to cat stay alive and unmodified until the last out call (API contract: the repacketizer borrows pointers)']
 
 REQUIRED_THEOREMS = [
@@ -35,14 +37,9 @@ REQUIRED_THEOREMS = [
     'OpusProps.C07.unpad_idempotent', 'OpusProps.C07.unpad_pad', 'OpusProps.C07.emitted_padding_ext_free', 'OpusProps.C07.ms_unpad_spec', 'OpusProps.C07.ms_pad_spec',
     'OpusProps.C07.out_roundtrip_ext_partial', 'OpusProps.C07.out_malformed_padding_dropped',
     'OpusProps.C07.unpad_in_place', 'OpusProps.C07.ms_unpad_in_place', 'OpusProps.C07.move_frames_safe',
-    'OpusProps.C07.pad_same_decode_partial', 'OpusProps.C07.int_ranges_noext',
+    'OpusProps.C07.pad_same_packet_inputs', 'OpusProps.C07.pad_same_decode', 'OpusProps.C07.int_ranges_noext',
 ]
 UNPROVED = [
-    'pad_same_decode (full): the decoder skeleton\'s oracle-call log (SILK / CELT / range-decoder calls of C01\'s DecSkel) is identical '
-    'for x and pad x modulo the shift of the frame offsets; pad_same_decode_partial proves that every packet-derived input of the skeleton '
-    'except the frame address is identical (sizes, frame bytes, duration/mode/bandwidth/channels, return value, last_packet_duration); the '
-    'log equality needs a two-run simulation through C01\'s frameLoop (requested from the C01 owner); S4 decodes x and pad x on a quarter '
-    'of the pad cases and compares PCM and final range',
     'out_roundtrip_ext (full): out_roundtrip_ext_partial without the hypothesis NoRepeat, i.e. also when opus_packet_extensions_generate '
     'uses its repeat mechanism (ID 2) for the gathered list; missing only C16\'s generate->parse round trip through repeats '
     '(generate_parse_full, in progress); until then that case is tied (S3) and searched (S4 clause out-extensions)',
